@@ -209,3 +209,162 @@ Proof.
     right. exists s. split; [| exact Hsq].
     destruct Hs as [<- | Hs]; [unfold q in *; lia | assumption].
 Qed.
+
+(* ================================================================== the read after unblock *)
+(* a slot the reader can meet: not committed (the loop stops there) or a well-formed record *)
+Definition rd_ok (s : slot) : Prop :=
+  s_len s <= 0 \/
+  (0 < s_len s /\ s_span s = align (s_len s) 8 /\
+   (s_type s = PAD \/ (valid_cmd (s_type s) = true /\ s_len s = Z.of_nat (length (s_body s)) + 8))).
+
+Lemma inv_rd_ok lo cfg s : Inv lo cfg -> head' (g_ring cfg) (g_cons cfg) = r_head (g_ring cfg) ->
+  In s (r_slots (g_ring cfg)) -> rd_ok s.
+Proof. intros HI Hh Hs. pose proof (i_slots _ _ HI) as F. rewrite Forall_forall in F.
+  pose proof (tiled_range _ _ _ _ (tiledR lo cfg HI Hh)) as Rg. rewrite Forall_forall in Rg.
+  destruct (Rg s Hs) as (_ & _ & G).
+  destruct (F s Hs) as [C | (i & ps & Hi & Hin)].
+  - right. destruct (committed_shape _ _ _ G C) as (A & B & [(K & _) | (K1 & _ & K2)]); auto.
+  - left. destruct (expect_owner _ _ _ Hin). assumption. Qed.
+
+Lemma read_loop_mixed m cp hd t contiguous limit : cap_ok cp -> t - hd <= cp ->
+  forall suf fuel pre bytes msgs,
+    tiled cp (hd + bytes) t suf -> Forall rd_ok suf -> Forall (fun x => s_pos x + s_span x <= hd + bytes) pre ->
+    (length suf < fuel)%nat -> 0 <= bytes -> 0 <= msgs -> msgs + Z.of_nat (length suf) <= two30 ->
+    exists b n l, read_loop m fuel (pre ++ suf) hd contiguous limit bytes msgs = Ok (b, n, l) /\
+                  bytes <= b /\ hd + b <= t /\
+                  (* what was walked over is a prefix of the slots in front, all of them committed *)
+                  exists used rest, suf = used ++ rest /\ span_sum used = b - bytes /\ Forall (fun s => 0 < s_len s) used.
+Proof.
+  intros Hcap Hsz. pose proof (cap_ok_range _ Hcap) as Hcr.
+  induction suf as [| s r IH]; intros fuel pre bytes msgs T Hrd Hpre Hf Hb Hm Hmb.
+  - destruct fuel as [| f]; [inversion Hf |]. cbn [read_loop].
+    pose proof (tiled_le _ _ _ _ T) as Hle.
+    assert (X : exists used rest, @nil slot = used ++ rest /\ span_sum used = bytes - bytes /\ Forall (fun s => 0 < s_len s) used).
+    { exists [], []. repeat split; auto. cbn. lia. }
+    destruct ((bytes <? contiguous) && (msgs <? limit)); [| exists bytes, msgs, []; repeat split; auto; lia].
+    rewrite app_nil_r. unfold pos_word. rewrite find_slot_none by assumption. cbn [Z.leb Z.compare].
+    exists bytes, msgs, []. repeat split; auto; lia.
+  - destruct fuel as [| f]; [inversion Hf |]. cbn [read_loop].
+    inversion T as [| h0 t0 s0 sl0 Hpos G T2]; subst.
+    pose proof (tiled_le _ _ _ _ T2) as Hle.
+    pose proof G as (_ & _ & Gs & _ & Gstr & _). pose proof (mod_range cp (s_pos s) Hcap) as Hpm.
+    assert (X0 : exists used rest, s :: r = used ++ rest /\ span_sum used = bytes - bytes /\ Forall (fun s => 0 < s_len s) used).
+    { exists [], (s :: r). repeat split; auto. cbn. lia. }
+    destruct ((bytes <? contiguous) && (msgs <? limit)) eqn:C; [| exists bytes, msgs, []; repeat split; auto; lia].
+    assert (Hpre' : Forall (fun x => s_pos x + s_span x <= s_pos s) pre) by (rewrite Hpos; assumption).
+    rewrite <- Hpos. rewrite !pos_word_len by (auto; lia). rewrite !pos_word_type by (auto; lia).
+    inversion Hrd as [| a l Hs Hr']; subst a l.
+    destruct Hs as [Neg | (Pos & Hsp & Hk)].
+    + replace (s_len s <=? 0) with true by lia. exists bytes, msgs, []. repeat split; auto; lia.
+    + replace (s_len s <=? 0) with false by lia.
+      assert (Hlb : s_len s <= s_span s) by (rewrite Hsp; apply align8_bounds).
+      rewrite ralign_ok by (unfold two30 in *; lia). cbn [bind]. rewrite <- Hsp.
+      unfold add32 at 1. rewrite chk32_ok by (apply in_i32_small; unfold two31, two30 in *; lia). cbn [bind].
+      assert (Hpre2 : Forall (fun x => s_pos x + s_span x <= hd + (bytes + s_span s)) (pre ++ [s])).
+      { apply Forall_app. split; [eapply Forall_impl; [| exact Hpre]; cbn; intros; lia | constructor; [lia | constructor]]. }
+      assert (Happ : pre ++ s :: r = (pre ++ [s]) ++ r) by (rewrite <- app_assoc; reflexivity).
+      assert (T3 : tiled cp (hd + (bytes + s_span s)) t r).
+      { replace (hd + (bytes + s_span s)) with (hd + bytes + s_span s) by lia. exact T2. }
+      cbn [length] in Hf, Hmb.
+      assert (WRAP : forall b, bytes + s_span s <= b ->
+                (exists used rest, r = used ++ rest /\ span_sum used = b - (bytes + s_span s) /\ Forall (fun s => 0 < s_len s) used) ->
+                exists used rest, s :: r = used ++ rest /\ span_sum used = b - bytes /\ Forall (fun s => 0 < s_len s) used).
+      { intros b Hbb (u & rs & E1 & E2 & E3). exists (s :: u), rs. rewrite E1.
+        split; [reflexivity |]. split; [cbn [span_sum]; lia | constructor; assumption]. }
+      destruct Hk as [Kp | (Kv & Kl)].
+      * rewrite Kp, Z.eqb_refl. rewrite Happ.
+        destruct (IH f (pre ++ [s]) (bytes + s_span s) msgs T3 Hr' Hpre2 ltac:(lia) ltac:(lia) Hm ltac:(lia)) as (b & n & l & E & B1 & B2 & Bu).
+        exists b, n, l. split; [exact E |]. split; [lia |]. split; [lia |]. apply (WRAP b); assumption.
+      * rewrite (valid_cmd_not_pad _ Kv), Kv.
+        unfold add32 at 1. rewrite chk32_ok by (apply in_i32_small; unfold two31, two30 in *; lia). cbn [bind].
+        unfold sub32. rewrite chk32_ok by (apply in_i32_small; unfold two31, two30, HL, GenConsts.RB_HEADER_LENGTH in *; lia).
+        cbn [bind]. rewrite Happ.
+        destruct (IH f (pre ++ [s]) (bytes + s_span s) (msgs + 1) T3 Hr' Hpre2 ltac:(lia) ltac:(lia) ltac:(lia) ltac:(lia)) as (b & n & l & E & B1 & B2 & Bu).
+        rewrite E. cbn [bind]. eexists b, n, _. split; [reflexivity |]. split; [lia |]. split; [lia |]. apply (WRAP b); assumption.
+Qed.
+
+Lemma tiled_split_at cp h t sl s : tiled cp h t sl -> In s sl ->
+  exists pre suf, sl = pre ++ s :: suf /\ tiled cp h (s_pos s) pre /\ tiled cp (s_pos s) t (s :: suf).
+Proof. intros T Hs. destruct (in_split _ _ Hs) as (pre & suf & E). exists pre, suf. split; [assumption |].
+  rewrite E in T. destruct (tiled_app_inv _ _ _ _ _ T) as (p & T1 & T2).
+  inversion T2 as [| h0 t0 s0 sl0 Hp G T3]; subst. split; assumption. Qed.
+
+Lemma tiled_span_sum cp h t sl : tiled cp h t sl -> span_sum sl = t - h.
+Proof. induction 1; cbn [span_sum]; lia. Qed.
+
+(* after a successful unblock the next read (limit >= 1) returns normally and moves the head past the padding,
+   never past the tail *)
+Theorem unblock_progress lo m cfg limit : Inv lo cfg -> cons_idle (g_cons cfg) ->
+  let R := g_ring cfg in
+  snd (unblock R) = true -> 1 <= limit ->
+  exists R2 n l, read m (fst (unblock R)) limit = (R2, Ok (n, l)) /\
+    r_head R < r_head R2 /\ r_head R2 <= r_tail R /\ r_tail R2 = r_tail R /\ r_cap R2 = r_cap R.
+Proof.
+  intros HI Hid. cbn zeta. set (R := g_ring cfg). intros Hu Hlim.
+  pose proof (idle_head' R _ Hid) as Hh'. fold R in Hh'.
+  destruct (unblock_spec lo cfg HI Hid) as (_ & _ & _ & U4). fold R in U4.
+  destruct (U4 Hu) as (s1 & rest & L & Es & Hneg & ER1 & HL & Hfit & Hend & Hb). clear U4.
+  pose proof (i_cap _ _ HI) as Hc. fold R in Hc. pose proof (cap_ok_range _ Hc) as Hcr.
+  pose proof (tiledR lo cfg HI Hh') as T. fold R in T. rewrite Es in T.
+  pose proof (i_size _ _ HI) as Hsz. fold R in Hsz.
+  pose proof (mod_range (r_cap R) (r_head R) Hc) as Hci.
+  inversion T as [| h0 t0 s0 sl0 Hp1 G1 T2]; subst h0 t0 s0 sl0.
+  pose proof G1 as (_ & _ & G1s & _ & G1str & _).
+  pose proof (align8_bounds L) as HaL.
+  rewrite ER1. unfold read. cbn [set_slots r_head r_cap r_slots r_tail].
+  rewrite mask_idx_mod by assumption.
+  unfold sub32 at 1. rewrite chk32_ok by (apply in_i32_small; unfold two31, two30 in *; lia). cbn [bind].
+  (* first iteration: the padding written by unblock *)
+  unfold read_fuel. cbn [read_loop].
+  replace ((0 <? r_cap R - r_head R mod r_cap R) && (0 <? limit)) with true by lia.
+  rewrite Z.add_0_r.
+  assert (F1 : find_slot (set_hdr L PAD s1 :: rest) (r_head R) = Some (set_hdr L PAD s1)).
+  { cbn [find_slot set_hdr s_pos s_span]. replace ((s_pos s1 <=? r_head R) && (r_head R <? s_pos s1 + s_span s1)) with true by lia. reflexivity. }
+  assert (F2 : find_slot (set_hdr L PAD s1 :: rest) (r_head R + 4) = Some (set_hdr L PAD s1)).
+  { cbn [find_slot set_hdr s_pos s_span]. replace ((s_pos s1 <=? r_head R + 4) && (r_head R + 4 <? s_pos s1 + s_span s1)) with true by lia. reflexivity. }
+  assert (PW1 : pos_word (set_hdr L PAD s1 :: rest) (r_head R) = L).
+  { unfold pos_word. rewrite F1. cbn [set_hdr s_pos]. replace (r_head R - s_pos s1) with 0 by lia. reflexivity. }
+  assert (PW2 : pos_word (set_hdr L PAD s1 :: rest) (r_head R + 4) = PAD).
+  { unfold pos_word. rewrite F2. cbn [set_hdr s_pos]. replace (r_head R + 4 - s_pos s1) with 4 by lia. reflexivity. }
+  rewrite !PW1, !PW2. replace (L <=? 0) with false by lia.
+  rewrite ralign_ok by (unfold two30 in *; lia). cbn [bind].
+  unfold add32 at 1. rewrite chk32_ok by (apply in_i32_small; unfold two31, two30 in *; lia). cbn [bind].
+  rewrite Z.eqb_refl. rewrite Z.add_0_l.
+  (* the rest of the loop runs over the slots from the boundary on *)
+  assert (Hrd : Forall rd_ok rest).
+  { apply Forall_forall. intros x Hx. apply (inv_rd_ok lo cfg x HI Hh'). fold R. rewrite Es. right. assumption. }
+  assert (SPLIT : exists pre suf, set_hdr L PAD s1 :: rest = pre ++ suf /\
+            tiled (r_cap R) (r_head R + align L 8) (r_tail R) suf /\ Forall rd_ok suf /\
+            Forall (fun x => s_pos x + s_span x <= r_head R + align L 8) pre /\ (length suf <= length rest)%nat).
+  { destruct Hb as [Eend | (s & Hs & Hsq)].
+    - exists (set_hdr L PAD s1 :: rest), []. rewrite app_nil_r. split; [reflexivity |]. rewrite Eend.
+      split; [constructor |]. split; [constructor |]. split; [| cbn; lia].
+      constructor; [cbn [set_hdr s_pos s_span]; pose proof (tiled_le _ _ _ _ T2); lia |].
+      pose proof (tiled_range _ _ _ _ T2) as Rg. eapply Forall_impl; [| exact Rg]. cbn. intros a (_ & A & _). lia.
+    - destruct (tiled_split_at _ _ _ _ s T2 Hs) as (pre & suf & E & Tp & Ts).
+      exists (set_hdr L PAD s1 :: pre), (s :: suf). rewrite E. split; [reflexivity |]. rewrite <- Hsq.
+      split; [exact Ts |]. split.
+      + rewrite E in Hrd. apply Forall_app in Hrd. tauto.
+      + split; [| rewrite app_length; cbn [length]; lia].
+        constructor; [cbn [set_hdr s_pos s_span]; pose proof (tiled_le _ _ _ _ Tp); lia |].
+        pose proof (tiled_range _ _ _ _ Tp) as Rg. eapply Forall_impl; [| exact Rg]. cbn. intros a (_ & A & _). lia. }
+  destruct SPLIT as (pre & suf & Esp & Tsuf & Rsuf & Ppre & Lsuf).
+  rewrite Esp.
+  assert (Hlen : 8 * (Z.of_nat (length rest) + 1) <= r_cap R).
+  { pose proof (tiled_len8 _ _ _ _ T2). pose proof (tiled_span_sum _ _ _ _ T2). lia. }
+  assert (Hfuel : (length suf < Z.to_nat (r_cap R / 8))%nat).
+  { pose proof (Z.div_le_mono (8 * (Z.of_nat (length rest) + 1)) (r_cap R) 8 ltac:(lia) Hlen) as D.
+    rewrite Z.mul_comm in D. rewrite Z_div_mult in D by lia. lia. }
+  destruct (read_loop_mixed m (r_cap R) (r_head R) (r_tail R) (r_cap R - r_head R mod r_cap R) limit Hc Hsz
+              suf (Z.to_nat (r_cap R / 8)) pre (align L 8) 0 Tsuf Rsuf Ppre Hfuel) as (b & n & l & E & B1 & B2 & _).
+  - lia.
+  - lia.
+  - unfold two30 in *. lia.
+  - rewrite E. cbn [bind].
+    unfold add64. rewrite chk64_ok.
+    2: { apply in_i64_small. pose proof (i_lo _ _ HI) as Hlo. pose proof (i_hc _ _ HI) as Hhc. pose proof (i_win _ _ HI) as Hw.
+         fold R in Hhc, Hw. unfold two63, two61, two30 in *. lia. }
+    cbn [bind]. replace (b =? 0) with false by lia.
+    eexists; eexists; eexists. split; [reflexivity |].
+    cbn [set_head set_slots r_head r_tail r_cap]. repeat split; lia.
+Qed.
